@@ -78,7 +78,8 @@ class CallMixin:
             return st.alloc(HObj('smap', meta={'present': present, 'vals': vals, 'default_int': t.default_int, 'key': t.key, 'val_t': t.val}))
         if isinstance(t, SetT):
             ks = U if t.key == 'U' else z3.IntSort()
-            return st.alloc(HObj('sset', meta={'present': z3.Array(fresh_name(name + '_set'), ks, z3.BoolSort()), 'key': t.key}))
+            return st.alloc(HObj('sset', meta={'present': z3.Array(fresh_name(name + '_set'), ks, z3.BoolSort()), 'key': t.key,
+                                               'elem_kind': getattr(t, 'elem_kind', None)}))
         if isinstance(t, ObjT):
             return self.make_object(t, name, st)
         raise EngineError(f'make_symbolic: {t!r}')
